@@ -12,9 +12,10 @@ Stateless (byte strings in hex, `-` = empty; a map is `k=v,k=v` in hex or `none`
 * `c08 sub <text> <map>` — `SubstituteGlobals`; same columns.
 * `c08 ext <text>` — `ExtractUGlobals`: sorted distinct names; spec = word-level global names.
 * `c08 refs <text> <map>` — `ManagedText::TranslateRaw`: model = `Refs.translateRaw` (C17); spec = C17's
-  `translateSpec` (an affected reference is re-spelled canonically). `c08 refstrict <text> <map>`: the
-  same call judged by the STRICT reading (only the bytes of the name change) — the recorded finding
-  `C08-reference-respelled`.
+  `translateSpec`. `c08 refstrict <text> <map>`: the same call judged by this package's own
+  `translateRefsStrict` (only the bytes of the name of a renamed entity reference change, every other
+  byte kept) — an ordinary oracle: the implementation must produce exactly these bytes
+  (`translateRaw_strict`).
 * `c08 trtok <g|i> <text> <map> <toks>` — any bytes (ill-formed UTF-8 included): `toks` is the token
   stream the real lexer reported (`code:start:len,…`); model `skip`; spec = the text with exactly
   the reported filter tokens replaced, by byte ranges of the ORIGINAL text.
